@@ -192,6 +192,7 @@ type longRPC struct {
 	done    atomic.Bool
 	stream  bool
 	result  string
+	fault   *bodyFaultRW
 }
 
 func (l *longRPC) openGate() { l.gateMu.Do(func() { close(l.gate) }) }
@@ -240,6 +241,14 @@ func (g *longRig) echo() *echoImpl {
 		},
 		stream: func(kind string, s grpc.ServerStream) error {
 			l := g.get(mdN(s.Context()))
+			if l != nil && l.outcome == "srvabort" {
+				// reads one message, then gives up on the RPC while the client is still sending
+				var m wrapperspb.BytesValue
+				if err := s.RecvMsg(&m); err != nil {
+					return err
+				}
+				return status.Error(codes.Code(3), "m3")
+			}
 			fin := func() error {
 				wait(s.Context())
 				if l != nil && l.outcome == "status" {
@@ -294,6 +303,21 @@ func (g *longRig) echo() *echoImpl {
 	}
 }
 
+// bodyFaultRW fails the next write that carries a body (a per-message transport
+// failure on a healthy connection: e.g. "message too large"); everything else
+// goes through.
+type bodyFaultRW struct {
+	*Endpoint
+	failNextBody atomic.Bool
+}
+
+func (b *bodyFaultRW) Write(ctx context.Context, r *Rpc) error {
+	if r.GetBody() != nil && b.failNextBody.CompareAndSwap(true, false) {
+		return errWriteInjected
+	}
+	return b.Endpoint.Write(ctx, r)
+}
+
 var censusBuf = make([]byte, 16<<20)
 
 func clCensus() (mux, loops int) {
@@ -340,13 +364,31 @@ func (l *longRPC) run(cc *goat.ClientConn) {
 			}
 		}
 	}
+	if l.outcome == "srvabort" {
+		// two messages back to back (the second one marshals to zero bytes), then the caller only looks at the
+		// result: no CloseSend (the usual `if err := stream.Send(m); err != nil { return err }` loop)
+		<-l.stage
+		cs.SendMsg(&wrapperspb.BytesValue{Value: payloadOf(tok)})
+		<-l.stage
+		cs.SendMsg(&wrapperspb.BytesValue{})
+		drain()
+		return
+	}
 	rounds := 1
 	if l.kind != "SStream" {
 		rounds = 1 + l.n%3
 	}
 	for i := 0; i < rounds; i++ {
 		<-l.stage
+		if l.outcome == "sendfail" && i == rounds-1 && l.fault != nil {
+			l.fault.failNextBody.Store(true)
+		}
 		if err := cs.SendMsg(&wrapperspb.BytesValue{Value: payloadOf(tok + int64(i))}); err != nil {
+			if l.outcome == "sendfail" {
+				// the gRPC contract: the stream is aborted; the caller just drops it (no cancel)
+				l.result = "send:" + classOf(err)
+				return
+			}
 			drain()
 			return
 		}
@@ -382,10 +424,10 @@ func TestC14Long(t *testing.T) {
 	em.Marker("begin", idx)
 	r := newRand(1401)
 	kinds := []string{"Unary", "Bidi", "CStream", "SStream"}
-	outcomes := []string{"ok", "status", "cancel", "deadline", "reset", "failopen"}
+	outcomes := []string{"ok", "status", "cancel", "deadline", "reset", "failopen", "sendfail", "srvabort"}
 	var samples []string
 	hist := map[string]int{}
-	maxInflight, idleSamples := 0, 0
+	maxInflight, idleSamples, maxSrv := 0, 0, 0
 	leaked := bubble(t, func(t *testing.T) {
 		l := NewLink(false)
 		l.Auto = true
@@ -402,10 +444,40 @@ func TestC14Long(t *testing.T) {
 			}
 			fwd(rp)
 		}
+		// the server->client direction can be held for a moment (the client has not yet seen what the server wrote)
+		var holdMu sync.Mutex
+		holding := false
+		var heldS2C []*Rpc
+		l.S.OnWrite = func(rp *Rpc) {
+			holdMu.Lock()
+			if holding {
+				heldS2C = append(heldS2C, rp)
+				holdMu.Unlock()
+				return
+			}
+			holdMu.Unlock()
+			l.C.Deliver(rp)
+		}
+		holdS2C := func(on bool) {
+			holdMu.Lock()
+			holding = on
+			h := heldS2C
+			if !on {
+				heldS2C = nil
+			}
+			holdMu.Unlock()
+			if !on {
+				for _, rp := range h {
+					l.C.Deliver(rp)
+				}
+			}
+		}
 		sctx, scancel := context.WithCancel(context.Background())
 		srv := newEchoServer("srv", g.echo())
 		go srv.Serve(sctx, l.S)
-		cc := goat.NewClientConn(l.C, "c1", "srv")
+		fault := &bodyFaultRW{Endpoint: l.C}
+		goat.VerifResetTracking()
+		cc := goat.NewClientConn(fault, "c1", "srv")
 		var active []*longRPC
 		started := 0
 		sample := func(step int) {
@@ -445,7 +517,14 @@ func TestC14Long(t *testing.T) {
 			if inflight == 0 {
 				idleSamples++
 			}
-			samples = append(samples, fmt.Sprintf("(%d, %d, %d, %d)", reg, loops, inflight, streams))
+			srv := -1
+			if cs := goat.VerifServerStreamCounts(); len(cs) == 1 {
+				srv = cs[0]
+			}
+			if srv > maxSrv {
+				maxSrv = srv
+			}
+			samples = append(samples, fmt.Sprintf("(%d, %d, %d, %d, %s)", reg, loops, inflight, streams, coqZ(int64(srv))))
 		}
 		step := 0
 		for started < total || len(active) > 0 {
@@ -456,6 +535,10 @@ func TestC14Long(t *testing.T) {
 				a := &longRPC{n: started, kind: kinds[r.Intn(4)], outcome: outcomes[r.Intn(len(outcomes))],
 					stage: make(chan struct{}, 8), gate: make(chan struct{})}
 				a.stream = a.kind != "Unary"
+				a.fault = fault
+				if a.outcome == "srvabort" && (a.kind == "Unary" || a.kind == "SStream") {
+					a.outcome = "status"
+				}
 				started++
 				g.mu.Lock()
 				g.rpcs[a.n] = a
@@ -468,6 +551,17 @@ func TestC14Long(t *testing.T) {
 					a.stage <- struct{}{}
 					synctest.Wait()
 					l.C.FailWrites(nil)
+				} else if a.outcome == "srvabort" {
+					// the handler gives up after the first message; the client, which has not yet seen the server's
+					// trailer, sends one more message (zero bytes on the wire) and then only looks at the result
+					a.stage <- struct{}{}
+					synctest.Wait()
+					holdS2C(true)
+					a.stage <- struct{}{}
+					synctest.Wait()
+					a.stage <- struct{}{}
+					synctest.Wait()
+					holdS2C(false)
 				} else {
 					a.stage <- struct{}{}
 				}
@@ -481,6 +575,10 @@ func TestC14Long(t *testing.T) {
 				}
 				if r.Intn(2) == 0 {
 					a.openGate()
+				}
+				if a.outcome == "sendfail" {
+					synctest.Wait()
+					fault.failNextBody.Store(false)
 				}
 			case x < 85:
 				a := active[r.Intn(len(active))]
@@ -497,6 +595,9 @@ func TestC14Long(t *testing.T) {
 				if a.outcome == "reset" && ok && a.stream {
 					l.C.Deliver(&Rpc{Id: id, Header: &goatorepo.RequestHeader{Method: "/verif.Echo/" + a.kind, Source: "srv", Destination: "c1"},
 						Reset_: &goatorepo.Reset{Type: "RST_STREAM"}, Trailer: &goatorepo.Trailer{}})
+					// the scripted reset stands for the server giving up: its real handler is told as well
+					l.S.Deliver(&Rpc{Id: id, Header: &goatorepo.RequestHeader{Method: "/verif.Echo/" + a.kind, Source: "c1", Destination: "srv"},
+						Reset_: &goatorepo.Reset{Type: "RST_STREAM"}})
 				} else {
 					a.openGate()
 				}
@@ -510,6 +611,10 @@ func TestC14Long(t *testing.T) {
 						select {
 						case a.stage <- struct{}{}:
 						default:
+						}
+						if a.outcome == "sendfail" {
+							synctest.Wait()
+							fault.failNextBody.Store(false)
 						}
 					}
 				}
@@ -532,7 +637,8 @@ func TestC14Long(t *testing.T) {
 		l.S.FailRead(io.EOF)
 		synctest.Wait()
 	})
-	tags := []string{fmt.Sprintf("rpcs=%d", total), fmt.Sprintf("max-inflight=%d", maxInflight), fmt.Sprintf("idle-samples>0=%v", idleSamples > 0)}
+	tags := []string{fmt.Sprintf("rpcs=%d", total), fmt.Sprintf("max-inflight=%d", maxInflight), fmt.Sprintf("idle-samples>0=%v", idleSamples > 0),
+		fmt.Sprintf("server-registry-seen>0=%v", maxSrv > 0)}
 	if leaked {
 		tags = append(tags, "leaked-at-end")
 	}
